@@ -70,7 +70,7 @@ Proof. exact cw_start_inv. Qed.
 Print Assumptions C15_inv_start.
 
 (* ---- one invocation of schedule(), from any state satisfying the invariant, for every offered list, cluster view,
-   goal and LOAD/EVICT oracle answer *)
+   goal and LOAD/EVICT oracle answer (inv_pools = the offered view with the answer's evictions applied) *)
 Theorem C15_schedule : forall wd ls inv st st' d, world_wf wd -> Inv_st wd st -> cw_schedule wd ls inv st = Ok (st', d) ->
   Inv_st wd st' /\
   d_cancel d = filter (hopeless wd (i_now inv)) (i_offered inv) /\
@@ -87,6 +87,23 @@ Theorem C15_batch : forall wd ls started invs, world_wf wd -> NoDup started ->
   Forall (res_all (fun d => Forall (batch_ok wd) (d_batches d))) (cw_run wd ls invs (cw_start wd started)).
 Proof. intros wd ls started invs Hw Hd. apply run_batches_ok; [assumption|]. apply cw_start_inv; assumption. Qed.
 Print Assumptions C15_batch.
+(* a batch is placed only where its model is still loaded once the invocation's LOAD/EVICT decisions are taken: no batch of
+   model M on worker W in an invocation that evicts M from W (run_load applies its evictions to the virtual cluster that
+   run_inference reads; a LOAD never makes a model usable in the same invocation) *)
+Theorem C15_no_batch_on_evicted_model : forall wd ls inv st st' d, world_wf wd -> Inv_st wd st -> cw_schedule wd ls inv st = Ok (st', d) ->
+  forall b, In b (d_batches d) -> ~ In (1, b_model b, b_pool b, w_id (b_worker b)) (d_load d).
+Proof. exact no_batch_on_evicted. Qed.
+Print Assumptions C15_no_batch_on_evicted_model.
+Theorem C15_evictions_reach_inference : forall lds ps ps' mid pid wid, apply_load lds ps = Ok ps' ->
+  In (1, mid, pid, wid) lds \/ not_loaded_at mid pid wid ps -> not_loaded_at mid pid wid ps'.
+Proof. exact apply_load_evicted. Qed.
+Print Assumptions C15_evictions_reach_inference.
+Theorem C15_eviction_example :
+  (exists st', cw_schedule ev_wd false (ev_inv None) [] = Ok (st', mkD [] [] [mkB 1 (mkW 1 [(1, 11, 2); (9, 19, 0)] [(1, 0)] [] [(1, [(9, 19, 1)])]) 1 (mkS 1 1 10 [(1, 0, 1)]) [mkT 1 1 100] 0])) /\
+  (exists st', cw_schedule ev_wd false (ev_inv (Some [(1, 1, 1, 1); (2, 2, 1, 1)])) [] = Ok (st', mkD [] [(1, 1, 1, 1); (2, 2, 1, 1)] [])) /\
+  load_pools (ev_inv (Some [(1, 1, 1, 1); (2, 2, 1, 1)])) = Ok [mkP 1 [mkW 1 [(1, 11, 2); (9, 19, 1)] [] [] []]].
+Proof. exact eviction_example. Qed.
+Print Assumptions C15_eviction_example.
 (* placed at most once over the whole run *)
 Theorem C15_once : forall wd ls invs st prev, world_wf wd -> Inv_st wd st ->
   NoDup prev -> (forall t, In t prev -> ~ In t (st_recs st)) -> env_ok wd ls invs st prev ->
@@ -118,7 +135,7 @@ Print Assumptions C15_terminates_run.
 (* ... and the hypothesis is needed: with a batch size 0 the loop never ends (observation O-cw2) *)
 Theorem C15_zero_batch_diverges :
   let st := [mkM 1 [(mkS 1 0 10 [], [mkT 7 1 100])] [(mkT 7 1 100, 1)]] in
-  forall fuel acc, infer_loop fuel false 0 1 (mkW 1 [] [(1, 0)] []) st [(1, [mkS 1 0 10 []])] acc = Err 99.
+  forall fuel acc, infer_loop fuel false 0 1 (mkW 1 [] [(1, 0)] [] []) st [(1, [mkS 1 0 10 []])] acc = Err 99.
 Proof. exact zero_batch_never_terminates. Qed.
 Print Assumptions C15_zero_batch_diverges.
 
@@ -129,6 +146,14 @@ Print Assumptions C15_monitor_batch.
 Theorem C15_monitor_covers_theorem : forall wd b, world_wf wd -> batch_ok wd b -> mon_batch wd (b_now b) (b_worker b) (obatch_of b) = true.
 Proof. exact batch_ok_monitored. Qed.
 Print Assumptions C15_monitor_covers_theorem.
+Theorem C15_monitor_evicted : forall lds bs, mon_evicted lds bs = true <->
+  forall b t0, In b bs -> hd_error (ob_tasks b) = Some t0 -> evicted_at_end lds (t_model t0) (ob_pool b) (ob_worker b) false = false.
+Proof. exact mon_evicted_iff. Qed.
+Print Assumptions C15_monitor_evicted.
+Theorem C15_monitor_evicted_covers_theorem : forall wd ls inv st st' d, world_wf wd -> Inv_st wd st -> cw_schedule wd ls inv st = Ok (st', d) ->
+  mon_evicted (d_load d) (map obatch_of (d_batches d)) = true.
+Proof. exact no_batch_on_evicted_monitored. Qed.
+Print Assumptions C15_monitor_evicted_covers_theorem.
 Theorem C15_monitor_once : forall os, mon_once os = true <-> NoDup (flat_map oi_placed os).
 Proof. exact mon_once_iff. Qed.
 Print Assumptions C15_monitor_once.
